@@ -18,14 +18,14 @@ fn grads(p: &Program, mask: &[bool], root: usize, seed: Option<Vec<f64>>) -> Res
 fn spaces(tier: Tier, var: u64) -> Vec<Space> {
     match tier {
         Tier::Quick => vec![
-            Space { name: "same-shape/core", leaves: same_shape_pool(var), ops: core_ops(), max_nodes: 2, masks: None },
-            Space { name: "same-shape/zero", leaves: same_shape_pool(var), ops: zero_ops(), max_nodes: 2, masks: None },
-            Space { name: "broadcast/full", leaves: broadcast_pool(var), ops: full_ops(), max_nodes: 2, masks: Some(vec![0b1111, 0b0110]) },
+            Space { name: "same-shape/core", leaves: same_shape_pool(var), ops: core_ops(), max_nodes: 2, masks: None, deviations_upto: 0 },
+            Space { name: "same-shape/zero", leaves: same_shape_pool(var), ops: zero_ops(), max_nodes: 2, masks: None, deviations_upto: 0 },
+            Space { name: "broadcast/full", leaves: broadcast_pool(var), ops: full_ops(), max_nodes: 2, masks: Some(vec![0b1111, 0b0110]), deviations_upto: 0 },
         ],
         Tier::Thorough => vec![
-            Space { name: "same-shape/core", leaves: same_shape_pool(var), ops: core_ops(), max_nodes: 3, masks: None },
-            Space { name: "same-shape/zero", leaves: same_shape_pool(var), ops: zero_ops(), max_nodes: 3, masks: None },
-            Space { name: "broadcast/full", leaves: broadcast_pool(var), ops: full_ops(), max_nodes: 2, masks: None },
+            Space { name: "same-shape/core", leaves: same_shape_pool(var), ops: core_ops(), max_nodes: 3, masks: None, deviations_upto: 0 },
+            Space { name: "same-shape/zero", leaves: same_shape_pool(var), ops: zero_ops(), max_nodes: 3, masks: None, deviations_upto: 0 },
+            Space { name: "broadcast/full", leaves: broadcast_pool(var), ops: full_ops(), max_nodes: 2, masks: None, deviations_upto: 0 },
         ],
     }
 }
